@@ -3,6 +3,7 @@ from __future__ import annotations
 
 import builtins
 import io
+import posixpath
 import re
 import struct
 import types
@@ -450,6 +451,24 @@ FUNC_MODELS = {
     re.findall: m_re_func("findall"),
 }
 FUNC_MODELS.update(_fnmatch_models())
+
+
+def m_splitext(p):
+    """posixpath.splitext (genericpath._splitext with sep '/', no altsep, extsep '.')."""
+    s = to_symseq(p)
+    sep, dot = ("/", ".") if s.kind == "str" else (b"/", b".")
+    sep_index = s.rfind(sep)
+    dot_index = s.rfind(dot)
+    if dot_index > sep_index:
+        i = sep_index + 1
+        while i < dot_index:
+            if s[i:i + 1] != dot:
+                return s[:dot_index], s[dot_index:]
+            i += 1
+    return s, s[:0]
+
+
+FUNC_MODELS[posixpath.splitext] = m_splitext
 
 
 def m_map(fn, *iterables):
